@@ -94,8 +94,31 @@ Fixpoint lookup (p : comp -> bool) (chain : list (list comp)) (lvl : nat) : opti
       end
   end.
 
+(* a history of registrations and lookups on a nesting of containers (level 0 = innermost child):
+   Register appends to one container, a lookup is made from one container and sees it and its ancestors *)
+Inductive lop :=
+| LReg (lvl : nat) (c : comp)
+| LLook (lvl : nat) (by_kind_ : bool) (key : N).
+
+Fixpoint reg_at (chain : list (list comp)) (lvl : nat) (c : comp) : list (list comp) :=
+  match chain, lvl with
+  | [], _ => []
+  | cs :: r, O => (cs ++ [c]) :: r
+  | cs :: r, S l => cs :: reg_at r l c
+  end.
+
 Definition by_name (n : N) (c : comp) : bool := N.eqb (cname c) n.
 Definition by_kind (k : N) (c : comp) : bool := N.testbit (ckind c) k.
+
+Definition look_pred (bk : bool) (key : N) : comp -> bool := if bk then by_kind key else by_name key.
+
+(* results of the lookups of a history, in order *)
+Fixpoint run_lops (chain : list (list comp)) (ops : list lop) : list (option (nat * nat)) :=
+  match ops with
+  | [] => []
+  | LReg l c :: r => run_lops (reg_at chain l c) r
+  | LLook l bk key :: r => lookup (look_pred bk key) (skipn l chain) l :: run_lops chain r
+  end.
 
 (* ---------------------------------------------------------------------------------------------
    Declarative specification (what the property states), written independently of the loops. *)
@@ -134,6 +157,15 @@ Fixpoint spec_lookup (p : comp -> bool) (chain : list (list comp)) (lvl : nat) :
   | cs :: parents =>
       if existsb p cs then option_map (fun i => (lvl, i)) (find_idx p cs 0)
       else spec_lookup p parents (S lvl)
+  end.
+
+(* every lookup of a history answers from the registrations made so far, child first: nothing else
+   (no earlier answer, no cache) influences it *)
+Fixpoint spec_run_lops (chain : list (list comp)) (ops : list lop) : list (option (nat * nat)) :=
+  match ops with
+  | [] => []
+  | LReg l c :: r => spec_run_lops (reg_at chain l c) r
+  | LLook l bk key :: r => spec_lookup (look_pred bk key) (skipn l chain) l :: spec_run_lops chain r
   end.
 
 (* decidable equalities used by the executable spec predicate *)
@@ -175,3 +207,13 @@ Definition opt_pair_eqb (a b : option (nat * nat)) : bool :=
 
 Definition spec_C20_lookup (p : comp -> bool) (chain : list (list comp)) (obs : option (nat * nat)) : bool :=
   opt_pair_eqb (spec_lookup p chain 0) obs.
+
+Fixpoint opt_list_eqb (a b : list (option (nat * nat))) : bool :=
+  match a, b with
+  | [], [] => true
+  | x :: r, y :: q => opt_pair_eqb x y && opt_list_eqb r q
+  | _, _ => false
+  end.
+
+Definition spec_C20_lops (depth : nat) (ops : list lop) (obs : list (option (nat * nat))) : bool :=
+  opt_list_eqb (spec_run_lops (repeat [] depth) ops) obs.
